@@ -1,12 +1,16 @@
 import GoMailModel.Mime.Exec
 import GoMailModel.Props.C08
+import GoMailModel.Proofs.Idem
 /-
-  C11 — Rendering is repeatable and all output paths agree (PARTIAL).
-  Proved: what a render leaves behind in the Msg never touches content (parts, producers, file names,
-  encodings); the encoding applied to a file's body never depends on the header cache (the repaired
-  defect); a cached boundary is reused whatever the random source yields. The full statement
-  "second render = first render, byte for byte" is checked by the run on histories of 2..5 renders
-  over every output path, with the model threading the state.
+  C11 — Rendering is repeatable and all output paths agree.
+  Proved: (1) `state_is_fixpoint`: everything a render writes into the Msg - generic header defaults
+  (Date, Message-ID, MIME-Version, User-Agent / X-Mailer), the boundary cache, the header cache of
+  every file - is left unchanged by the next render, whatever clock and random source yield then;
+  (2) `second_render_equals_first`: for multipart messages the bytes of the second render are the
+  bytes of the first; (3) a render never touches content; the encoding applied to a file body never
+  depends on the header cache (the repaired defect); a cached boundary is reused. The different
+  output paths (Write, Reader, files, Send) all go through WriteTo; that they agree byte for byte,
+  single-part messages and S/MIME re-renders are checked by the run on histories of 2..5 renders.
 -/
 namespace GoMail.Props.C11
 open GoMail GoMail.Mime
@@ -44,5 +48,36 @@ theorem cached_boundary_reused (p : PW) (mt given fresh1 fresh2 : Bytes) (hv : v
     (p.startMP mt given fresh1).2 = (p.startMP mt given fresh2).2 := by
   have := GoMail.Props.C08.cached_boundary_reused p mt given fresh1 fresh2 hv
   rw [this.1, this.2]
+
+/-- **A render leaves a fixpoint behind** (all message shapes). -/
+theorem state_is_fixpoint (s : MsgState) (e1 e2 : Entropy) (h : RenderOK s e1) :
+    (writeMsg (writeMsg s e1 false).2 e2 false).2.gen = (writeMsg s e1 false).2.gen ∧
+    (writeMsg (writeMsg s e1 false).2 e2 false).2.bMixed = (writeMsg s e1 false).2.bMixed ∧
+    (writeMsg (writeMsg s e1 false).2 e2 false).2.bRelated = (writeMsg s e1 false).2.bRelated ∧
+    (writeMsg (writeMsg s e1 false).2 e2 false).2.bAlt = (writeMsg s e1 false).2.bAlt ∧
+    (writeMsg (writeMsg s e1 false).2 e2 false).2.embeds = (writeMsg s e1 false).2.embeds ∧
+    (writeMsg (writeMsg s e1 false).2 e2 false).2.attachments = (writeMsg s e1 false).2.attachments :=
+  render_state_fixpoint s e1 e2 h
+
+/-- **The second render produces the bytes of the first** (messages that need a multipart layer, no
+    deleted parts): whatever Date, Message-ID and boundaries the second render would draw. -/
+theorem second_render_equals_first (s : MsgState) (e1 e2 : Entropy)
+    (hp : ∀ p ∈ s.parts, p.deleted = false ∧ p.smime = false)
+    (hl : hasMixed s = true ∨ hasRelated s = true ∨ hasAlt s = true) (h : RenderOK s e1) :
+    planBytes (writeMsg (writeMsg s e1 false).2 e2 false).1.acts = planBytes (writeMsg s e1 false).1.acts :=
+  render_idempotent s e1 e2 hp hl h
+
+/-- the hypotheses are satisfiable: a fresh message with two parts and an attachment, 30-character
+    random boundaries -/
+example : RenderOK { parts := [⟨sb "text/plain", [], [], encQP, ⟨sb "a", false⟩, false, false⟩, ⟨sb "text/html", [], [], encQP, ⟨sb "b", false⟩, false, false⟩],
+                     attachments := [⟨sb "f.txt", [], [], [], [], [], ⟨sb "x", false⟩⟩] }
+    { bMixed := sb "0123456789abcdef0123456789abcd", bRelated := sb "1123456789abcdef0123456789abcd", bAlt := sb "2123456789abcdef0123456789abcd" } :=
+  { user := Or.inl rfl, cM := Or.inl rfl, cR := Or.inl rfl, cA := Or.inl rfl,
+    fM := by decide, fR := by decide, fA := by decide,
+    hdrE := fun f hf => (by cases hf),
+    hdrA := fun f hf => (by
+      have : f.header = [] := by
+        simp only [List.mem_singleton] at hf; rw [hf]
+      unfold HSorted; rw [this]; exact List.Pairwise.nil) }
 
 end GoMail.Props.C11
